@@ -51,7 +51,7 @@ def run(ctx):
             continue
         rows = {}
         for p in ret_paths(paths):
-            v = self_discr_variant(fx, p, ENUM)
+            v = self_discr_variant(fx, p, ENUM, lambda t: strip_refs(t) == ('param', 1))
             calls = [e for e in p.events if e.kind == "call" and e.path.startswith("digest::hash_")]
             rows.setdefault(v, []).append((p, calls))
         n = 0
@@ -122,7 +122,7 @@ def run(ctx):
         body = ctx.body(fd)
         disp = {}
         for p in ret_paths(paths):
-            v = self_discr_variant(fx, p, ENUM)
+            v = self_discr_variant(fx, p, ENUM, lambda t: strip_refs(t) == ('param', 1))
             lits = fmt_literal_writes(p)
             disp.setdefault(v, []).append(lits)
         for name in algs:
